@@ -156,10 +156,20 @@ func HC05File() {
 	var lB uint32
 	var okB bool
 	path := "/nonexistent/verif-c05"
+	// a file whose very first read fails (natively: a directory)
+	dirLike := vChoice("dirLike", 2) == 1
 	if vSymbolic() {
 		rd := &c05Reader{data: data, failAt: -1}
+		if dirLike {
+			rd.failAt = 0
+		}
 		vFileReader(rd)
 		vFileInfo(vfs.FileInfo(c05FileInfo{size: int64(len(data))}))
+	} else if dirLike {
+		if dir, err := vos.MkdirTemp("", "verif-c05-dir-*"); err == nil {
+			path = dir
+			defer vos.Remove(dir)
+		}
 	} else {
 		f, err := vos.CreateTemp("", "verif-c05-*")
 		if err == nil {
@@ -171,6 +181,9 @@ func HC05File() {
 	}
 	inB, lB, okB = c05Capture(s, func() { rB, errB = DetectFile(path) })
 	vAssert(rB != nil, "file-result-non-nil")
+	if dirLike {
+		vAssert(errB != nil, "file-read-error-is-surfaced")
+	}
 	if errB != nil {
 		vAssert(rB == errMIME && !okB, "open-error-yields-errMIME")
 	} else {
